@@ -305,6 +305,8 @@ type c20DA struct {
 	Name  string   `dials:"name"`
 	Ports []int    `dials:"ports"`
 	Tags  []string `dials:"tags"`
+	// a dials tag that is present but EMPTY names nothing: the field is keyed by its Go name, reformatted like any other
+	ListenAddr string `dials:""`
 }
 
 type c20DB struct {
@@ -318,13 +320,14 @@ type c20DB struct {
 func c20SharedDecoder(c *Ctx, r *RNG) {
 	res := c.Res
 	mk := func() dials.Decoder {
-		return sourcewrap.NewTransformingDecoder(&jsondec.Decoder{}, tagformat.NewTagReformattingMangler("dials", caseconversion.DecodeLowerSnakeCase, caseconversion.EncodeLowerCamelCase),
+		return sourcewrap.NewTransformingDecoder(&jsondec.Decoder{}, tagformat.NewTagReformattingMangler("dials", caseconversion.DecodeLowerSnakeCase, caseconversion.EncodeLowerSnakeCase),
 			&tagformat.TagCopyingMangler{SrcTag: "dials", NewTag: "json"})
 	}
 	shared := mk()
 	order := r.Intn(2)
-	docA := fmt.Sprintf(`{"name":"a%d","ports":[%d,%d],"tags":["t%d"]}`, r.Intn(100), r.Intn(1000), r.Intn(1000), r.Intn(10))
-	docB := fmt.Sprintf(`{"name":"b%d","hosts":{"x":"h%d"},"retries":%d,"peers":[{"hostName":"p%d","port":%d}],"debug":true}`, r.Intn(100), r.Intn(100), r.Intn(10), r.Intn(100), r.Intn(1000))
+	addr := fmt.Sprintf(":%d", 1000+r.Intn(9000))
+	docA := fmt.Sprintf(`{"name":"a%d","ports":[%d,%d],"tags":["t%d"],"listen_addr":%q}`, r.Intn(100), r.Intn(1000), r.Intn(1000), r.Intn(10), addr)
+	docB := fmt.Sprintf(`{"name":"b%d","hosts":{"x":"h%d"},"retries":%d,"peers":[{"host_name":"p%d","port":%d}],"debug":true}`, r.Intn(100), r.Intn(100), r.Intn(10), r.Intn(100), r.Intn(1000))
 	cs := map[string]any{"stream": "one transforming decoder, two config types", "first": []string{"A", "B"}[order], "docA": docA, "docB": docB}
 	runA := func(dec dials.Decoder) (string, error) {
 		d, err := dials.Config(context.Background(), &c20DA{}, &static.StringSource{Data: docA, Decoder: dec})
@@ -367,6 +370,8 @@ func c20SharedDecoder(c *Ctx, r *RNG) {
 		res.Add(Finding{Kind: "violation", What: fmt.Sprintf("a fresh transforming decoder failed on a valid document: %v %v", weA, weB), Case: cs})
 	case eA != nil || eB != nil:
 		res.Add(Finding{Kind: "violation", What: fmt.Sprintf("the shared transforming decoder failed where a fresh one succeeds: %v %v", eA, eB), Case: cs})
+	case !strings.Contains(wantA, "ListenAddr:"+addr):
+		res.Add(Finding{Kind: "violation", What: "a field with an empty dials tag is keyed by its reformatted Go name (listen_addr), but its value did not arrive through the tag-reformatting decoder", Case: cs, Expected: "ListenAddr:" + addr, Observed: wantA})
 	case gotA != wantA || gotB != wantB:
 		res.Add(Finding{Kind: "violation", What: "a transforming decoder that had decoded another config type before returns a different config than a fresh one", Case: cs,
 			Expected: wantA + " / " + wantB, Observed: gotA + " / " + gotB})
